@@ -46,7 +46,6 @@ def run(chk, replay=None):
         "value dictionaries are obtained by decoding generated well-formed responses (the decoders are judged by C04); "
         "what the library builds from them is judged by TLC against T10Data.tla, so the 'canonical byte strings' are "
         "images of the build direction that the specification accepts",
-        "volume tags of READ ELEMENT STATUS and fields the build direction does not model are generated as zero",
     ]
     if replay is not None:
         chk.only(replay, keys=("clause", "fmt", "path"))
@@ -64,20 +63,11 @@ def run(chk, replay=None):
         dec = datafmt.decoder(fmt)
         for _ in range(n):
             b0 = datafmt.GEN[fmt](rng, 1) if fmt.startswith("ModeSense") else datafmt.GEN[fmt](rng)
-            if fmt == "ReadElementStatus":
-                # the build direction carries no volume tags: generate pages without them
-                b0 = bytearray(b0)
             try:
                 d = dec(bytearray(b0))
             except Exception:
                 continue
             orig = copy.deepcopy(d)
-            if fmt == "ReadElementStatus":
-                for pg in d.get("element_status_pages", []):
-                    for e_ in pg.get("element_descriptors", []):
-                        for k in ("primary_volume_tag", "alternate_volume_tag"):
-                            if k in e_:
-                                e_[k] = bytearray(36)
             ev.case((fmt, bytes(b0)))
             # read - modify: the caller edits what it parsed; parsing the same response again must not see the edits
             keepd = copy.deepcopy(d)
@@ -101,6 +91,8 @@ def run(chk, replay=None):
                 marsh.append(e)
                 continue
             marsh.append(e)
+            # what was rebuilt from the parsed response must hold the response's values (TLC reads both)
+            marsh.append({"ev": "Rebuild", "fmt": fmt, "orig": list(b0), "bytes": list(built), "in": {}})
             # parse what was built: the original values come back
             try:
                 d2 = dec(bytearray(built))
@@ -213,11 +205,13 @@ def run(chk, replay=None):
             leaf = [p for p in leaf if p.endswith("/#len")][:1]
         for lf in (leaf or [detail if clause == "Constructible" else ""]):
             viol({"ValuePlacement": "BuildPlacesValues", "HonestLengths": "BuildHonestLengths",
-                  "Constructible": "BuildAccepts"}.get(clause, clause), e["fmt"], lf,
-                 {"info": detail[:500], "bytes": e["bytes"][:64], "in": {k: e["in"].get(k) for k in paths[:4]}})
+                  "Constructible": "BuildAccepts", "RebuildKeepsValues": "BuildOfParse"}.get(clause, clause), e["fmt"], lf,
+                 {"info": detail[:500], "bytes": e["bytes"][:64], "orig": e.get("orig", [])[:64],
+                  "in": {k: e["in"].get(k) for k in paths[:4]}})
     ev.sample({"event": {k: marsh[0][k] for k in ("fmt", "bytes")}})
     ev.cov["rule"] = ("%d value dictionaries per structure with both directions (%s, TransportIDs): build judged by TLC "
-                      "(T10Data), parse-of-build equals the values, build-of-parse equals the bytes; read-modify-write of "
+                      "(T10Data), parse-of-build equals the values, build-of-parse equals the bytes and holds the values TLC reads in "
+                      "the device's response; read-modify-write of "
                       "every field of the four mode pages through SCSI.modesense6 / modeselect6 with a recording device. "
                       "distinct by (format, response bytes)." % (n, ", ".join(sorted(B))))
 
